@@ -175,6 +175,8 @@ def gaps_of(src):
         if t.type in (tokenize.NL, tokenize.COMMENT, tokenize.INDENT, tokenize.DEDENT, tokenize.ENDMARKER):
             continue
         if t.type == tokenize.NEWLINE:
+            if prev is not None and depth == 0:     # the rest of the line behind the last token: spaces and a line comment, trivia of the enclosing block
+                out.append(((prev.end[0] - 1, prev.end[1]), (t.start[0] - 1, t.start[1]), -1, prev.string, 'NEWLINE'))
             prev = None
             continue
         if prev is not None:
@@ -190,6 +192,7 @@ def gaps_of(src):
 
 REPL_IN = ['', ' ', '  ', '\t', ' \\\n ', '\n', '  # c\n  ', '\n\n    ', ' # é\n']
 REPL_OUT = ['', ' ', '  ', '\t', ' \\\n ']
+REPL_EOL = ['', ' ', '   ', '  # new', ' # \u00e9', '\t# t']
 
 
 def innermost(nodes_locs, gs, ge, root_f):
@@ -239,7 +242,7 @@ def stage_oracle(ctx: Ctx, progs):
                 root = fst.FST(src, 'exec')
             lines = src.split('\n')
             old = '\n'.join([lines[gs[0]][gs[1]:]] + lines[gs[0] + 1:ge[0]] + [lines[ge[0]][:ge[1]]]) if ge[0] != gs[0] else lines[gs[0]][gs[1]:ge[1]]
-            cands = [r for r in (REPL_IN if depth > 0 else REPL_OUT) if r != old]
+            cands = [r for r in (REPL_IN if depth > 0 else REPL_EOL if depth < 0 else REPL_OUT) if r != old]
             rng.shuffle(cands)
             done = 0
             for repl in cands:
@@ -272,18 +275,46 @@ def stage_oracle(ctx: Ctx, progs):
                     lit, ids = enc.stree(root.a, kids)
                 desc = {'src': src, 'gap': [gs[0], gs[1], ge[0], ge[1]], 'old': old, 'repl': repl, 'node': type(node.a).__name__,
                         'node_loc': list(node.loc), 'between': [ptok, ntok]}
+                # a tool has looked at the tree before it edits: the answers it got are cached
+                warm = rng.random() < 0.7
+                if warm:
+                    for f_, _ in locs:
+                        f_.bloc
+                        if isinstance(f_.a, (ast.expr, ast.pattern)):
+                            f_.pars()
+                # the same coordinates counted from the end of the line (negative columns)
+                c0, c1 = gs[1], ge[1]
+                sl = src.split('\n')
+                if rng.random() < 0.3 and c0 < len(sl[gs[0]]):
+                    c0 -= len(sl[gs[0]])
+                if rng.random() < 0.3 and c1 < len(sl[ge[0]]):
+                    c1 -= len(sl[ge[0]])
+                desc['put_src_args'] = [gs[0], c0, ge[0], c1]
+                desc['queried_before'] = warm
                 try:
-                    node.put_src(repl, gs[0], gs[1], ge[0], ge[1], 'offset')
+                    node.put_src(repl, gs[0], c0, ge[0], c1, 'offset')
                 except Exception as e:
                     ctx.violation(f'raise|{type(node.a).__name__}|{type(e).__name__}', 'offset-mode put of pure trivia raised', {**desc, 'error': repr(e)})
                     root = fst.FST(src, 'exec')
                     continue
-                ctx.tick((pi, gs, ge, repl), 'gap:' + ('in-brackets' if depth else 'top') + (':multiline' if '\n' in repl or ge[0] != gs[0] else ''))
+                ctx.tick((pi, gs, ge, repl), 'gap:' + ('in-brackets' if depth > 0 else 'end-of-line' if depth < 0 else 'top') + (':multiline' if '\n' in repl or ge[0] != gs[0] else ''))
                 diffs = []
                 if root.src != new_src:
                     diffs.append('source text is not the requested splice')
                 else:
                     diffs = cmp_ast(root.a, ast.parse(new_src), positions=True)
+                    if not diffs:
+                        fresh = fst.FST(new_src, 'exec')
+                        for a1, a2 in zip(ast.walk(root.a), ast.walk(fresh.a)):
+                            f1, f2 = a1.f, a2.f
+                            if (tuple(f1.loc) if f1.loc else None) != (tuple(f2.loc) if f2.loc else None):
+                                diffs.append(f'{type(a1).__name__}: loc {f1.loc} != {f2.loc}')
+                            elif (tuple(f1.bloc) if f1.bloc else None) != (tuple(f2.bloc) if f2.bloc else None):
+                                diffs.append(f'{type(a1).__name__}: bloc (location with trailing line comment / decorators) {f1.bloc} != {f2.bloc}')
+                            elif isinstance(a1, (ast.expr, ast.pattern)) and tuple(f1.pars()) != tuple(f2.pars()):
+                                diffs.append(f'{type(a1).__name__}: pars {f1.pars()} != {f2.pars()}')
+                            if len(diffs) > 5:
+                                break
                 if diffs:
                     ctx.violation(f'pos|{type(node.a).__name__}|{ptok!r}|{ntok!r}|{repl!r}', 'tree after offset-mode put differs from a from-scratch parse of the new source',
                                   {**desc, 'diffs': diffs, 'result_src': root.src})
